@@ -1,0 +1,248 @@
+// Copyright 2026 Dolthub, Inc.
+//
+// Licensed under the Apache License, Version 2.0 (the "License");
+// you may not use this file except in compliance with the License.
+// You may obtain a copy of the License at
+//
+//     http://www.apache.org/licenses/LICENSE-2.0
+//
+// Unless required by applicable law or agreed to in writing, software
+// distributed under the License is distributed on an "AS IS" BASIS,
+// WITHOUT WARRANTIES OR CONDITIONS OF ANY KIND, either express or implied.
+// See the License for the specific language governing permissions and
+// limitations under the License.
+
+//go:build verif
+
+package nbs
+
+import (
+	"bufio"
+	"bytes"
+	"context"
+	"errors"
+
+	dherrors "github.com/dolthub/dolt/go/libraries/utils/errors"
+	"github.com/dolthub/dolt/go/store/hash"
+)
+
+// Re-exports of unexported chunk-journal internals for the /verif correspondence
+// harness (properties C03 and C04). Add-only; compiled only with -tags verif.
+// Nothing here changes behaviour: the wrappers call the unexported functions
+// unchanged.
+
+// VerifC03Writer wraps a journalWriter.
+type VerifC03Writer struct {
+	wr *journalWriter
+}
+
+// VerifC03Range is one entry of the journal's address -> range map as seen through rangeIndex.get.
+type VerifC03Range struct {
+	Found  bool
+	Offset uint64
+	Length uint32
+}
+
+// VerifC03Rec is the parsed form of one journal record handed to a processJournalRecords callback.
+type VerifC03Rec struct {
+	Off        int64
+	Length     uint32
+	Kind       uint8
+	Addr       [hash.ByteLen]byte
+	PayloadOff uint32
+	PayloadLen int
+	Timestamp  int64
+}
+
+// VerifC03BuffSize returns journalWriterBuffSize.
+func VerifC03BuffSize() uint32 { return journalWriterBuffSize }
+
+// VerifC03SetBuffSize sets the package variable journalWriterBuffSize and returns the old value.
+func VerifC03SetBuffSize(n uint32) (old uint32) {
+	old = journalWriterBuffSize
+	journalWriterBuffSize = n
+	return old
+}
+
+// VerifC03SetTimestamp replaces journalRecordTimestampGenerator; the returned func restores it.
+func VerifC03SetTimestamp(f func() uint64) (restore func()) {
+	old := journalRecordTimestampGenerator
+	journalRecordTimestampGenerator = f
+	return func() { journalRecordTimestampGenerator = old }
+}
+
+// VerifC03CrcPoly returns the (reflected) polynomial of the table used by crc().
+func VerifC03CrcPoly() uint32 { return crcTable[128] }
+
+// VerifC03Crc is crc().
+func VerifC03Crc(b []byte) uint32 { return crc(b) }
+
+// VerifC03MaybeSyncThreshold is journalMaybeSyncThreshold.
+func VerifC03MaybeSyncThreshold() uint64 { return journalMaybeSyncThreshold }
+
+// VerifC03JournalFileName / VerifC03IndexFileName are the on-disk names.
+func VerifC03JournalFileName() string { return chunkJournalName }
+func VerifC03IndexFileName() string   { return journalIndexFileName }
+
+// VerifC03ChunkRecordSize is chunkRecordSize for a payload of |n| bytes.
+func VerifC03ChunkRecordSize(n int) (recordSz, payloadOff uint32) {
+	return chunkRecordSize(CompressedChunk{FullCompressedChunk: make([]byte, n)})
+}
+
+// VerifC03RootHashRecordSize is rootHashRecordSize.
+func VerifC03RootHashRecordSize() int { return rootHashRecordSize() }
+
+// VerifC04IndexSizes returns lookupSz and lookupMetaSz.
+func VerifC04IndexSizes() (lookup, meta int) { return lookupSz, lookupMetaSz }
+
+// VerifC03WriteChunkRecord is writeChunkRecord into a fresh buffer.
+func VerifC03WriteChunkRecord(h hash.Hash, full []byte) []byte {
+	cc := CompressedChunk{H: h, FullCompressedChunk: full}
+	sz, _ := chunkRecordSize(cc)
+	buf := make([]byte, sz)
+	n := writeChunkRecord(buf, cc)
+	return buf[:n]
+}
+
+// VerifC03WriteRootHashRecord is writeRootHashRecord into a fresh buffer.
+func VerifC03WriteRootHashRecord(root hash.Hash) []byte {
+	buf := make([]byte, rootHashRecordSize())
+	n := writeRootHashRecord(buf, root)
+	return buf[:n]
+}
+
+func verifC03Rec(o int64, r journalRec) VerifC03Rec {
+	return VerifC03Rec{Off: o, Length: r.length, Kind: uint8(r.kind), Addr: r.address,
+		PayloadOff: r.payloadOffset(), PayloadLen: len(r.payload), Timestamp: r.timestamp.Unix()}
+}
+
+// VerifC03ProcessJournalRecords runs processJournalRecords over an in-memory journal image.
+func VerifC03ProcessJournalRecords(data []byte, start int64) (off int64, recs []VerifC03Rec, warnings int, err error) {
+	off, err = processJournalRecords(context.Background(), "mem", bytes.NewReader(data), false, start, func(o int64, r journalRec) error {
+		recs = append(recs, verifC03Rec(o, r))
+		return nil
+	}, func(error) { warnings++ })
+	return
+}
+
+// VerifC03PossibleDataLossCheck runs possibleDataLossCheck over |data|.
+func VerifC03PossibleDataLossCheck(data []byte) (bool, error) {
+	return possibleDataLossCheck(bufio.NewReaderSize(bytes.NewReader(data), int(journalWriterBuffSize)))
+}
+
+// VerifC03IsDataLoss reports whether err is ErrJournalDataLoss.
+func VerifC03IsDataLoss(err error) bool { return errors.Is(err, ErrJournalDataLoss) }
+
+// VerifC03Create creates a new journal file at |path| and bootstraps a writer on it (as newTestJournalWriter does).
+func VerifC03Create(path string, maxNovel int) (*VerifC03Writer, error) {
+	ctx := context.Background()
+	wr, err := createJournalWriter(ctx, path)
+	if err != nil {
+		return nil, err
+	}
+	wr.maxNovel = maxNovel
+	if _, err = wr.bootstrapJournal(ctx, true, nil, nil); err != nil {
+		_ = wr.Close()
+		return nil, err
+	}
+	return &VerifC03Writer{wr: wr}, nil
+}
+
+// VerifC03Open opens an existing journal file with openJournalWriter and runs bootstrapJournal.
+// On a bootstrap error the writer's files are closed and a nil writer is returned.
+func VerifC03Open(path string, canWrite bool, maxNovel int) (w *VerifC03Writer, root hash.Hash, warnings []string, err error) {
+	ctx := context.Background()
+	wr, ok, err := openJournalWriter(ctx, path)
+	if err != nil {
+		return nil, hash.Hash{}, nil, err
+	}
+	if !ok {
+		return nil, hash.Hash{}, nil, errors.New("missing chunk journal")
+	}
+	wr.maxNovel = maxNovel
+	root, err = wr.bootstrapJournal(ctx, canWrite, nil, func(e error) { warnings = append(warnings, e.Error()) })
+	if err != nil {
+		if wr.index != nil {
+			_ = wr.index.Close()
+		}
+		_ = wr.journal.Close()
+		return nil, hash.Hash{}, warnings, err
+	}
+	return &VerifC03Writer{wr: wr}, root, warnings, nil
+}
+
+// WriteCompressedChunk is journalWriter.writeCompressedChunk.
+func (w *VerifC03Writer) WriteCompressedChunk(cc CompressedChunk) error {
+	return w.wr.writeCompressedChunk(context.Background(), dherrors.FatalBehaviorError, cc)
+}
+
+// WriteRaw writes a chunk record whose payload is exactly |full| under address |h|.
+func (w *VerifC03Writer) WriteRaw(h hash.Hash, full []byte) error {
+	return w.wr.writeCompressedChunk(context.Background(), dherrors.FatalBehaviorError, CompressedChunk{H: h, FullCompressedChunk: full})
+}
+
+// CommitRootHash is journalWriter.commitRootHash.
+func (w *VerifC03Writer) CommitRootHash(root hash.Hash) error {
+	return w.wr.commitRootHash(context.Background(), dherrors.FatalBehaviorError, root)
+}
+
+// State returns the writer's offsets and counters.
+func (w *VerifC03Writer) State() (off int64, buffered int, indexed int64, unsyncd uint64, root hash.Hash, count uint32, novel int) {
+	w.wr.lock.RLock()
+	defer w.wr.lock.RUnlock()
+	return w.wr.off, len(w.wr.buf), w.wr.indexed, w.wr.unsyncd, w.wr.currentRoot, w.wr.ranges.count(), w.wr.ranges.novelCount()
+}
+
+// Lookup is rangeIndex.get.
+func (w *VerifC03Writer) Lookup(h hash.Hash) VerifC03Range {
+	w.wr.lock.RLock()
+	defer w.wr.lock.RUnlock()
+	r, ok := w.wr.ranges.get(h)
+	return VerifC03Range{Found: ok, Offset: r.Offset, Length: r.Length}
+}
+
+// HasAddr is journalWriter.hasAddr.
+func (w *VerifC03Writer) HasAddr(h hash.Hash) bool { return w.wr.hasAddr(h) }
+
+// GetCompressedChunk is journalWriter.getCompressedChunk; returns the full compressed bytes.
+func (w *VerifC03Writer) GetCompressedChunk(h hash.Hash) (full []byte, err error) {
+	cc, err := w.wr.getCompressedChunk(h)
+	if err != nil {
+		return nil, err
+	}
+	return cc.FullCompressedChunk, nil
+}
+
+// Close is journalWriter.Close.
+func (w *VerifC03Writer) Close() error { return w.wr.Close() }
+
+// VerifC04Lookup / VerifC04Batch: parsed journal index contents.
+type VerifC04Lookup struct {
+	Addr   [16]byte
+	Offset uint64
+	Length uint32
+}
+
+type VerifC04Batch struct {
+	Start, End int64
+	CheckSum   uint32
+	BatchCrc   uint32
+	Root       [hash.ByteLen]byte
+	Lookups    []VerifC04Lookup
+}
+
+// VerifC04ProcessIndexRecords runs processIndexRecords over an in-memory index image with an accepting callback.
+func VerifC04ProcessIndexRecords(data []byte) (off int64, batches []VerifC04Batch, err error) {
+	off, err = processIndexRecords(bufio.NewReader(bytes.NewReader(data)), int64(len(data)), func(m lookupMeta, batch []lookup, crc uint32) error {
+		b := VerifC04Batch{Start: m.batchStart, End: m.batchEnd, CheckSum: m.checkSum, BatchCrc: crc, Root: m.latestHash}
+		for _, l := range batch {
+			b.Lookups = append(b.Lookups, VerifC04Lookup{Addr: l.a, Offset: l.r.Offset, Length: l.r.Length})
+		}
+		batches = append(batches, b)
+		return nil
+	})
+	return
+}
+
+// VerifC04JournalIndexRecordSize is journalIndexRecordSize for a payload of |n| bytes.
+func VerifC04JournalIndexRecordSize(n int) uint32 { return journalIndexRecordSize(make([]byte, n)) }
